@@ -174,6 +174,19 @@ impl Cell {
         self.is_symbol_str("unquote")
     }
 
+    /// True for the two element lists (unquote x) and (quasiquote x). The reader spells
+    /// the dotted template tails `. ,x` and `. `x` this way: (a . ,x) is (a unquote x).
+    pub fn is_quasi_form(&self) -> bool {
+        match self {
+            Cell::Pair(car, cdr) => {
+                (car.is_unquote() || car.is_quasiquote())
+                    && cdr.is_pair()
+                    && cdr.cdr().unwrap().is_nil()
+            }
+            _ => false,
+        }
+    }
+
     pub fn is_define(&self) -> bool {
         self.is_symbol_str("define")
     }
